@@ -269,7 +269,7 @@ fn gen_input(rng: &mut Rng, family: u64) -> (Vec<u8>, &'static str) {
             (t.into_bytes(), "digits")
         }
         5 => {
-            let names: &[&str] = if rng.chance(1, 3) { &gen::FANCY_NAMES } else if rng.chance(1, 4) { &gen::MARK_NAMES } else { &gen::PLAIN_NAMES };
+            let names: &[&str] = if rng.chance(1, 3) { &gen::FANCY_NAMES } else if rng.chance(1, 4) { gen::rare_pool(rng.next() as u64) } else { &gen::PLAIN_NAMES };
             let mut cfg = GenCfg::simple(&names[..5], 5);
             cfg.allow_ref = true;
             let toks = gen::render_tokens(&gen::gen_ast(rng, &cfg), rng, Style::Fancy);
@@ -517,6 +517,46 @@ fn limit_job(ctx: &Ctx, job: usize, jobs: usize) -> Stats {
     st
 }
 
+/// EVERY name length from 1 to 300 bytes (and around 512 .. 4096), ASCII and two-byte letters,
+/// in a formula whose table shows the name as True, as False and as Any, with each printing option:
+/// padding, column widths and buffers are computed from the length of a name.
+fn name_length_job(ctx: &Ctx, job: usize, jobs: usize) -> Stats {
+    let mut st = Stats::new();
+    let lengths: Vec<usize> = (1..=300usize).chain([511, 512, 513, 1023, 1024, 1025, 4095, 4096, 4097]).collect();
+    let option_sets: [&[&str]; 6] = [&["-t"], &["-t", "-v"], &["-v"], &["-m", "-t"], &["-r", "-t", "-f", "t"], &["-t", "-f", "false"]];
+    for (li, len) in lengths.iter().enumerate() {
+        if li % jobs != job {
+            continue;
+        }
+        for (two_byte, letter) in [(false, "v"), (true, "é")] {
+            if two_byte && len % 2 == 1 {
+                continue;
+            }
+            let name = letter.repeat(if two_byte { len / 2 } else { *len });
+            // rows: name True (other open), name False & other True, name False & other False
+            let text = format!("({} | o) & (p | -{})", name, name);
+            let opts = option_sets[(li + two_byte as usize) % option_sets.len()];
+            let mut args: Vec<String> = vec![format!("--evaluate={}", text)];
+            args.extend(opts.iter().map(|s| s.to_string()));
+            st.evals += 1;
+            st.bump("cli_runs");
+            st.bump("name_lengths_swept");
+            let out = cli::run(&ctx.bin("rsbdd"), &args, None, None, Some((STEP_CAP, 5_000)), Duration::from_secs(60));
+            let case = json!({"kind": "cli", "args": args, "stdin_hex": Value::Null, "input_hex": Value::Null, "ordering_hex": Value::Null, "origin": format!("name-length:{}", len), "dir": ""});
+            if out.timed_out {
+                st.bump("cli_watchdog(inconclusive case)");
+            } else if out.budget_exceeded() {
+                st.bump("cli_budget_exceeded(not judged)");
+            } else if out.crashed() {
+                st.violate("c12.cli", format!("C12:cli:{}", out.panic_site()), format!("rsbdd {:?} on a formula with a name of {} bytes died: {}\n{}", opts, len, out.status_string(), out.stderr_str().lines().filter(|l| !l.starts_with("finished ")).take(6).collect::<Vec<_>>().join("\n")), case);
+            } else {
+                st.nt.insert(util::mix(0x1e9, (*len * 2 + two_byte as usize) as u64));
+            }
+        }
+    }
+    st
+}
+
 fn cli_job(ctx: &Ctx, job: usize, iters: u64) -> Stats {
     let mut st = Stats::new();
     let mut rng = Rng::stream(ctx.seed, "C12.cli", job as u64);
@@ -558,11 +598,12 @@ pub fn run(ctx: &Ctx) -> (Stats, Spec) {
     let parts = util::par_jobs(16, |job| {
         let mut s = cli_job(ctx, job, cli_iters);
         s.merge(limit_job(ctx, job, 16));
+        s.merge(name_length_job(ctx, job, 16));
         s
     });
     st.merge(crate::report::merge_all(parts));
     let spec = Spec {
-        rule: "byte strings from 11 families plus inputs of exactly 65530-65536 bytes (one identifier / multi-byte identifier / comment / digit run / whitespace run filling the whole input, as formula and as ordering file, with each output option) (large inputs up to ~60 KiB: huge comments, very long identifiers, long whitespace runs, thousands of lines; random bytes; invalid UTF-8 inside formulas; token soups incl. braces/quotes; curated Unicode incl. non-ASCII digits; digit runs around 2^31/2^63/2^64 and up to 40 digits, also of 2-/3-/4-byte non-ASCII digits mixed with ASCII ones; mutated formulas; unbalanced brackets/quotes; empty input; every nestable construct nested up to exactly 200; valid formulas), a quarter of them combined with a hostile ordering; CLI: the same families through --evaluate / file / stdin / missing file x random subsets of -t -v -m -r -c -f -b -g -d -p -o with valid and invalid values. distinct = input bytes (+ ordering / options); non-trivial = the input got past tokenisation (reached the parser or beyond).".into(),
+        rule: "byte strings from 11 families plus inputs of exactly 65530-65536 bytes (one identifier / multi-byte identifier / comment / digit run / whitespace run filling the whole input, as formula and as ordering file, with each output option), names of EVERY length from 1 to 300 bytes (ASCII and two-byte letters; also 511-513, 1023-1025, 4095-4097) in a formula whose table shows the name as True, False and Any, under six option sets (large inputs up to ~60 KiB: huge comments, very long identifiers, long whitespace runs, thousands of lines; random bytes; invalid UTF-8 inside formulas; token soups incl. braces/quotes; curated Unicode incl. non-ASCII digits; digit runs around 2^31/2^63/2^64 and up to 40 digits, also of 2-/3-/4-byte non-ASCII digits mixed with ASCII ones; mutated formulas; unbalanced brackets/quotes; empty input; every nestable construct nested up to exactly 200; valid formulas), a quarter of them combined with a hostile ordering; CLI: the same families through --evaluate / file / stdin / missing file x random subsets of -t -v -m -r -c -f -b -g -d -p -o with valid and invalid values. distinct = input bytes (+ ordering / options); non-trivial = the input got past tokenisation (reached the parser or beyond).".into(),
         assumptions: vec![
             "'nesting depth <= 200' is read as depth of the syntax tree (a right-nested chain of n binary operators has depth n)".into(),
             "formulas are evaluated only when the reference finds their fixed points convergent and their size bounded (<= 10 names, lists <= 8, <= 300 nodes); exceeding the logical step budget is an inconclusive case".into(),
@@ -577,6 +618,7 @@ pub fn run(ctx: &Ctx) -> (Stats, Spec) {
             ("with_ordering".into(), 1_000, "orderings never exercised".into()),
             ("cli_runs".into(), 1_000, "CLI hardly exercised".into()),
             ("inputs_at_the_64KiB_limit".into(), 200, "inputs at the size limit not exercised".into()),
+            ("name_lengths_swept".into(), 300, "name lengths not swept".into()),
             ("cli_exit_0".into(), 100, "CLI never succeeded".into()),
         ],
     };
